@@ -41,6 +41,8 @@ def run(repo: Repo, tier: str) -> Report:
     def ob(rule, fn, role, ok, detail="", stmt=None, kind=""):
         rep.ob(rule, FILE, fn, role, ok, detail, stmt if stmt is not None else role, kind=kind)
 
+    from .spi_common import threshold_rule
+    threshold_rule(ob, spi)
     # ---- 2. counting loop
     if spi.zero is None or spi.valid is None:
         ob("R-FORMULA", "gammastd", "zero and valid counters are identifiable by their guards", False,
